@@ -22,7 +22,7 @@ from molgri.space.fullgrid import FullGrid
 
 PROPERTY = "C20"
 
-LEGENDS = ["Potential", "LJ (SR)", "Disper. corr.", "a b  c", "#x", "s1", "Coulomb (SR)", "Pres. DC (bar)", "Pressure",
+LEGENDS = ["Potential", "LJ (SR):M1-M2", "LJ (SR)", "Box-XX", "Box-X", "Disper. corr.", "a b  c", "#x", "s1", "Coulomb (SR)", "Pres. DC (bar)", "Pressure",
            "Constr. rmsd", "Kinetic En.", "Temperature"]
 AT_LINES = ['@    title "GROMACS Energies"', '@    xaxis  label "Time (ps)"', '@    yaxis  label "(kJ/mol)"', "@TYPE xy",
             "@ view 0.15, 0.15, 0.75, 0.85", "@ legend on", "@ legend box on", "@ legend loctype view",
@@ -262,13 +262,13 @@ def run(ctx):
             for total in (13, 14, 20):
                 for nleg in range(1, 11):
                     for nrows in (1, 2, 7):
-                        xcs.append({"h": h, "total": total, "nleg": nleg, "nrows": nrows, "rot": (h + nleg + nrows) % 12,
+                        xcs.append({"h": h, "total": total, "nleg": nleg, "nrows": nrows, "rot": (h + nleg + nrows) % len(LEGENDS),
                                     "tmp": tmp})
         for times in ("rerun", "restart"):       # repeated time stamps: rows must still be one per data line
             for h in (0, 5, 13):
                 for nleg in (1, 4, 10):
                     for nrows in (2, 7):
-                        xcs.append({"h": h, "total": 14, "nleg": nleg, "nrows": nrows, "rot": (h + nleg) % 12, "times": times,
+                        xcs.append({"h": h, "total": 14, "nleg": nleg, "nrows": nrows, "rot": (h + nleg) % len(LEGENDS), "times": times,
                                     "tmp": tmp})
         if ctx.thorough:
             for h in range(0, 14):
